@@ -115,6 +115,12 @@ func (r *CfgRun) AgainTry(pid, src string, u *Universe, nth int) *Violation {
 }
 
 func (r *CfgRun) again(pid, src string, u *Universe, nth int, try bool) *Violation {
+	_, v := r.againOut(pid, src, u, nth, try)
+	return v
+}
+
+// againOut is again, also returning the engine's outcome.
+func (r *CfgRun) againOut(pid, src string, u *Universe, nth int, try bool) (Outcome, *Violation) {
 	calls := r.Log.Calls()
 	r.Log.Reset()
 	f := NewFetcher(u, r.Cfg, r.Log)
@@ -134,13 +140,13 @@ func (r *CfgRun) again(pid, src string, u *Universe, nth int, try bool) *Violati
 	ref := &m.Env{Vars: u.Bound(), Fail: u.Fail(), Custom: customModel(), Calls: calls, Fast: r.Fast}
 	rv, rerr := ref.Eval(r.DTree)
 	if o.Panic != nil {
-		return Violf("%s: evaluation %d of the same program panics\n%s\n%v", pid, nth, r.describe(src, u), o)
+		return o, Violf("%s: evaluation %d of the same program panics\n%s\n%v", pid, nth, r.describe(src, u), o)
 	}
 	if !MatchTrace(trace, ref.Trace) {
-		return Violf("%s: evaluation %d of the same compiled program does not perform the fetches / operator calls of the dumped program\n%s\nengine   =%v\nreference=%v", pid, nth, r.describe(src, u), m.TraceStrings(trace), m.TraceStrings(ref.Trace))
+		return o, Violf("%s: evaluation %d of the same compiled program does not perform the fetches / operator calls of the dumped program\n%s\nengine   =%v\nreference=%v", pid, nth, r.describe(src, u), m.TraceStrings(trace), m.TraceStrings(ref.Trace))
 	}
 	if rerr != m.ErrOptionalFetch && !Agrees(o, rv, rerr) {
-		return Violf("%s: evaluation %d of the same compiled program returns %v, the reference gives %s\n%s", pid, nth, o, refString(rv, rerr), r.describe(src, u))
+		return o, Violf("%s: evaluation %d of the same compiled program returns %v, the reference gives %s\n%s", pid, nth, o, refString(rv, rerr), r.describe(src, u))
 	}
-	return nil
+	return o, nil
 }
